@@ -124,7 +124,7 @@ def run(tier: str, seed: int) -> Report:
         if tier == "quick":
             head = len(b) + 2          # all truncations and the three extensions
             flips = ms[head:]
-            ms = ms[:head][-6:] + rnd.sample(flips, min(3, len(flips)))
+            ms = ms[:head][-6:] + rnd.sample(flips, min(6, len(flips)))
         for m in ms:
             add(m, "dyn", False, "mutant")
             add(m, c["kind"], False, "mutant")
@@ -160,7 +160,7 @@ def run(tier: str, seed: int) -> Report:
         big = [spool.submit(sweep3, sid) for sid in sids]
     if tier == "quick":
         for sid in sids:
-            for n in rnd.sample(range(65536), 300):
+            for n in rnd.sample(range(65536), 600):
                 add(bytes([sid]) + n.to_bytes(2, "big"), "dyn", False, "sampled-3")
     # ---- TLC validates everything
     verdicts, sweep_lines, results = R.validate("Trace_UdsLayoutResp", traces, sweeps,
@@ -274,9 +274,13 @@ def replay(path: str) -> int:
     classes = R.response_classes(exp["resp_layout"])
     by_name = {c.__name__: c for c in classes.values()}
     traces = []
+    done: set[tuple[str, str]] = set()
     for v in data["violations"]:
         d = v["detail"]
         via = d["via"]
+        if (via, d["bytes"]) in done:
+            continue
+        done.add((via, d["bytes"]))
         cls = None if via == "parse_dynamic" else by_name[via.split(".")[0]]
         rec, _ = R.exec_response(bytes.fromhex(d["bytes"]), cls)
         traces.append(rec)
